@@ -220,6 +220,14 @@ def solve_one(job):
     if res2['answer'] == 'error' and res is not None and res['answer'] != 'error':
         res['attempts'] = attempts
         return res
+    if res2['answer'] not in ('sat', 'unsat') and useq_sat is None and job.get('z3_interp_text') and not _weak(job):
+        r4 = run_z3(job['z3_interp_text'], [], budget)
+        r4['backend'] = (r4.get('backend') or 'z3') + '+instance'
+        attempts.append({k: r4.get(k) for k in ('backend', 'answer', 'time', 'detail')})
+        if r4['answer'] == 'sat':
+            return {'answer': 'sat', 'backend': r4['backend'], 'time': r4.get('time'),
+                    'detail': 'refuted in a concrete finite instance of the abstract sorts (no input extracted)',
+                    'attempts': attempts, 'abstract_model': True}
     if res2['answer'] not in ('sat', 'unsat') and useq_sat is not None:
         # no exact back end decided; the obligation is refuted in the sequence abstraction
         # (sequences as an uninterpreted sort with nth/len): reported as a refutation without input
@@ -229,7 +237,28 @@ def solve_one(job):
     return res2
 
 
-def make_job(name, assertions, outputs=None, budget_ms=10000):
+_INSTANCE_THEOREMS = {}
+
+
+def _axiom_of_instance(t, interp):
+    """closed universally quantified formula over the interpreted symbols only, valid in the instance"""
+    if t.op != 'forall':
+        return False
+    decls, sorts = {}, set()
+    smt.collect(t, decls, sorts)
+    if any(name not in interp['funs'] for (_, name) in decls):
+        return False
+    if any(srt not in interp['sorts'] for _, srt in t.data):
+        return False
+    import re
+    key = re.sub(r'_\d+\b', '_', smt.to_smt(t, 'z3'))
+    if key not in _INSTANCE_THEOREMS:
+        r = run_z3(smt.script([smt.Not(t)], 'z3', None, interp=interp), [], 20000)
+        _INSTANCE_THEOREMS[key] = (r['answer'] == 'unsat')
+    return _INSTANCE_THEOREMS[key]
+
+
+def make_job(name, assertions, outputs=None, budget_ms=10000, interp=None):
     outs = {'out!' + k: v for k, v in (outputs or {}).items()}
     z3_text = None
     weak = _needs_cvc5(list(assertions) + list(outs.values()))
@@ -244,8 +273,18 @@ def make_job(name, assertions, outputs=None, budget_ms=10000):
             useq_text = smt.script(assertions, 'z3', None, useq=True)
         except smt.Unsupported:
             useq_text = None
+    interp_text = None
+    if interp is not None:
+        # the same query with the abstract sorts replaced by a concrete finite instance: `sat` there is a
+        # genuine counter-model of the abstract query.  Axioms that only talk about the interpreted symbols
+        # are theorems of the instance (checked once each, below) and are left out of the instance query.
+        try:
+            kept = [a for a in assertions if not _axiom_of_instance(a, interp)]
+            interp_text = smt.script(kept, 'z3', None, useq=useq_text is not None, interp=interp)
+        except smt.Unsupported:
+            interp_text = None
     return {'name': name, 'z3_text': z3_text, 'cvc5_text': cvc5_text, 'z3_weak': weak,
-            'z3_useq_text': useq_text,
+            'z3_useq_text': useq_text, 'z3_interp_text': interp_text,
             'outputs': list(outs), 'budget_ms': budget_ms}
 
 
